@@ -468,3 +468,24 @@ def judge_decode(c):
 
 
 JUDGES["decode"] = judge_decode
+
+
+def judge_recsplit(c):
+    """C06 split clause on the implementation alone: processing the sequence in two pieces, feeding the
+    final state of the first piece into the second, gives the same result as processing it whole."""
+    impl = c["impl"]
+    key = ("recsplit", c.get("op"), impl["status"])
+    if impl["status"] != "ok":
+        return J(corr="skip", verdict="violates", tag="rec.split." + impl["status"], what="split run failed: " + impl.get("msg", "")[:100], key=key)
+    ex = impl["extra"]
+    whole, first, second = ex["whole"], ex["first"], ex["second"]
+    y = whole[0]
+    ycat = (first[0]["data"] or []) + (second[0]["data"] or [])
+    ok = len(ycat) == len(y["data"]) and all(num_eq(a, b) for a, b in zip(ycat, y["data"]))
+    ok = ok and all(tensor_eq(a, b) for a, b in zip(whole[1:], second[1:]))
+    if not ok:
+        return J(corr="skip", verdict="violates", tag="rec.split.wrong", what="whole-sequence result differs from the two-piece result", key=key)
+    return J(corr="skip", verdict="holds", key=key)
+
+
+JUDGES["recsplit"] = judge_recsplit
